@@ -315,6 +315,16 @@ def type_kind(t):
 
 
 # word: text known to be free of blanks; token: a reader that keeps one blank-separated word of the text
+def _unconst(t):
+    """type text without top-level cv qualifiers at the end (`count *const` -> `count *`)"""
+    t = (t or "").strip()
+    while True:
+        t2 = re.sub(r"\s*\b(const|volatile)$", "", t).strip()
+        if t2 == t:
+            return t
+        t = t2
+
+
 _ORDER = {"int": 0, "float": 1, "word": 2, "token": 2, "text": 3, "raw": 3}
 
 
@@ -375,6 +385,7 @@ class Effects:
         self.opaque = []         # text: payload handed to code the evaluation does not model
         self.undecided = set()   # members a branch condition depended on without a known value
         self.rets = set()
+        self.ret_locs = set()    # locations a returned pointer / reference denotes
         self.fns = set()
 
     def merge(self, other, lift=None):
@@ -610,7 +621,7 @@ class _FnEval:
         self._lloc[decl] = None
         res = None
         for how, x, t in self._local_defs().get(decl, []):
-            t = (t or "").strip()
+            t = _unconst(t)
             if how == "init" and x is not None and (t.endswith("&") or t.endswith("*")):
                 ps = self.ptrval(x) if t.endswith("*") else self.paths(x)
                 res = (res or set()) | ps
@@ -777,6 +788,23 @@ class _FnEval:
             ps = out
         return ps
 
+    def returned_locs(self, n):
+        """locations denoted by the pointer / reference that a call into an entered helper returns
+        (all return statements reachable under the known values); None when the callee is not entered
+        or does not return a pointer / reference"""
+        if n.get("k") not in ("CXXMemberCallExpr", "CallExpr"):
+            return None
+        callee = self.descendable(n)
+        if callee is None:
+            return None
+        rt = _unconst(callee.rec.get("ret"))
+        if not ((rt.endswith("*") and type_kind(rt) != "text") or rt.endswith("&")):
+            return None
+        sub = self.call_effects(n)
+        if sub is None:
+            return None
+        return set(sub.ret_locs)
+
     def paths(self, n):
         """set of access paths the lvalue / object expression n can denote"""
         if n is None:
@@ -825,6 +853,10 @@ class _FnEval:
             return {p + ("[]",) for p in self.paths(c[1])}
         if k == "CXXOperatorCallExpr" and n.get("op") in ("++", "--") and len(c) >= 2:
             return self.paths(c[1])
+        if k in ("CXXMemberCallExpr", "CallExpr"):
+            rl = self.returned_locs(n)
+            if rl is not None:
+                return rl
         if k == "CXXMemberCallExpr":
             name = short(n.get("callee") or "").split("::")[-1]
             if name in _ELEM:
@@ -841,6 +873,10 @@ class _FnEval:
             return self.paths(c[0])
         if k == "CXXNullPtrLiteralExpr" or (k == "IntegerLiteral" and n.get("v") == 0):
             return set()
+        if k in ("CXXMemberCallExpr", "CallExpr"):
+            rl = self.returned_locs(n)
+            if rl is not None:
+                return rl
         if k == "CXXMemberCallExpr":
             name = short(n.get("callee") or "").split("::")[-1]
             if name in ("begin", "cbegin", "data", "end", "cend"):
@@ -1003,7 +1039,7 @@ class _FnEval:
             v = self.cval(a)
             if v is not None:
                 cb[p["decl"]] = v
-            t = (p.get("t") or "").strip()
+            t = _unconst(p.get("t"))
             if t.endswith("&") and not t.startswith("const ") or (t.endswith("*") and type_kind(t) != "text"):
                 lb[p["decl"]] = frozenset(self.ptrval(a) if t.endswith("*") else self.paths(a))
                 db[p["decl"]] = frozenset()
@@ -1021,6 +1057,7 @@ class _FnEval:
         for r in results:
             tot.merge(r)
             tot.rets |= r.rets
+            tot.ret_locs |= r.ret_locs
         self.calls[nid] = tot
         return tot
 
@@ -1064,6 +1101,11 @@ class _FnEval:
         if k == "ReturnStmt":
             if c:
                 self.eff.rets |= self.deps(c[0])
+                rt = _unconst(self.fn.rec.get("ret"))
+                if rt.endswith("*") and type_kind(rt) != "text":
+                    self.eff.ret_locs |= self.ptrval(c[0])
+                elif rt.endswith("&"):
+                    self.eff.ret_locs |= self.paths(c[0])
             return
         if k == "BinaryOperator" and n.get("op") == "=":
             self.assign(n, c[0], c[1])
